@@ -2,7 +2,7 @@
 REG = dict(
     engine='E1-enum',
     technique='bounded-exhaustive enumeration of calls (every built-in/prelude function, method, operator and syntax form x argument vectors over a value pool), executed on the real interpreter',
-    text="Every public prelude/built-in function and method (table parsed from the repository's own .gdn files at run time, so new functions are picked up) is called with every argument vector over a 20-value pool (full product for <=2 positions, deviation-bounded beyond), plus arity n-1/n+1; every binary operator and +=/-= over pool x pool; 74 syntax forms x pool. Outcome must be a value or a Garden error: a Rust panic, abort, signal or non-termination is a violation. Exhaustive within the pool and deviation bound.",
+    text="Every public prelude/built-in function and method (table parsed from the repository's own .gdn files at run time, so new functions are picked up) is called with every argument vector over a 20-value pool (full product for <=2 positions, deviation-bounded beyond), plus arity n-1/n+1; the same calls (well-typed vector and one-position deviations) as statements whose value is discarded inside a `for` and a `while` body; every binary operator and +=/-= over pool x pool; 74 syntax forms x pool. Outcome must be a value or a Garden error: a Rust panic, abort, signal or non-termination is a violation. Exhaustive within the pool and deviation bound.",
     note='One call per program with a fresh Env, tick limit 200k; effectful built-ins run sandboxed and (in a scratch directory) unsandboxed; `read_line` only through the real CLI with stdin at EOF. Values outside the pool and call sequences are not covered.',
     design_ref='DESIGN.md §6 C02',
 )
@@ -69,6 +69,19 @@ def run(ctx):
                 progs.append((key + " [unsandboxed]", src, False))
             elif not effectful:
                 pass
+    # the same calls as statements whose value is discarded, inside loop bodies (a built-in that pushes a result nobody asked for
+    # leaves a stray value for the loop to trip over): the well-typed vector and every one-position deviation from it
+    for f in funs:
+        if f["name"] in NO_UNSANDBOXED:
+            continue
+        hints = ([f["recv_hint"]] if f["kind"] == "method" else []) + [h for _, h in f["params"]]
+        defaults = [bi.default_for(h) for h in hints]
+        key = ("method " + (f["recv_hint"][1] + "::" if f["recv_hint"] else "") if f["kind"] == "method" else "fun ") + f["name"]
+        vecs = set(arg_vectors(defaults, pool, full_upto=0, dev=1 if ctx.quick else 2))
+        for v in sorted(vecs):
+            call = call_src(f, list(v))
+            src = bi.PRELUDE_PREFIX + f"let n = 0\nfor i in [1, 2, 3] {{\n  {call}\n  n += i\n}}\nwhile n < 8 {{\n  {call}\n  n += 1\n}}\nprintln(string_repr(n))\n"
+            progs.append((key + " [value discarded, in loops]", src, True))
     # operators
     for op in OPS:
         for a in pool:
